@@ -427,6 +427,34 @@ def f():
 ''', ['f()'])
 
 
+case('helper that mutates its **kw is left alone (the callee gets a copy of the mapping)', '''
+class K(object):
+    def _bind(self, app, **kwargs):
+        kwargs.setdefault('x', 1)
+        return sorted(kwargs.items()), app
+    def run(self, app, **kwargs):
+        r = self._bind(app, **kwargs)
+        return r, sorted(kwargs.items())
+def f(**kw):
+    return K().run('A', **kw)
+''', ['f()', 'f(x=5, y=2)'], expect_inlined=False)
+
+case('helper that only passes **kw on', '''
+def target(app, **kw):
+    return app, sorted(kw.items())
+class K(object):
+    def _bind(self, app, **kwargs):
+        if app is None:
+            return None
+        return target(app, **kwargs)
+    def run(self, app, **kwargs):
+        r = self._bind(app, **kwargs)
+        return r, sorted(kwargs.items())
+def f(app, **kw):
+    return K().run(app, **kw)
+''', ['f(None)', 'f("A", x=5, y=2)'])
+
+
 def run_case(name, src, calls, expect_inlined):
     tree = ast.parse(src)
     normalize._ANCHORS = set()      # nothing is an anchor in these toy modules
